@@ -245,27 +245,46 @@ def _run(ch, seq, offs, waiter, window, hdelay=0.0, start=0.0):
         for n in puts:
             if len(pops.get(n, [])) != 1:
                 why = ("pop-count", f"datagram {rig.items[n][0][:40]!r} left the queue {len(pops.get(n, []))} times")
+    # With two or more wake-up deviations the accumulated jitter approaches a whole polling interval, and the unhandled
+    # consumer may discard a datagram before its own consumer has looked (the statement allows "discarded as unhandled");
+    # the expected effects are then those of the datagrams that WERE taken by their consumers (read off the pop log).
+    # With at most one deviation every correctly addressed datagram must reach its consumer.
+    ndev = sum(1 for k_, n_, c_ in ch.trace if c_ and k_ in ("timer", "batch"))
+    popper = {n: ps[0][3] for n, ps in pops.items() if ps}
+    new_items = [n for n in puts if n >= n_items_setup]
+
+    def taken(data, task):
+        return sum(1 for n in new_items if rig.items[n][0] == data and popper.get(n) == task)
+
+    n_statp_arrivals = sum(1 for i in seq if ALPHABET[i][0] == "statp")
+    if ndev >= 2:
+        n_good = taken(ALPHABET[NAMES.index("statp")][1], "SPA:Packet handler")
+        n_applied = taken(STATP, "SPA:Partial status block handler")
+        n_rf = taken(b"RFERR", "SPA:RFErr handler")
+        n_wc = taken(b"WCERR", "SPA:WCErr handler")
+    else:
+        n_good = n_applied = n_statp_arrivals
+        n_rf = sum(1 for i in seq if ALPHABET[i][0] == "rferr")
+        n_wc = sum(1 for i in seq if ALPHABET[i][0] == "wcerr")
     if why is None:
         # re-queue rule: inner content enqueued iff ids match the connection pair
-        inner = [rig.items[n][0] for n in puts if n >= n_items_setup]
+        inner = [rig.items[n][0] for n in new_items]
         for idx in seq:
             name, data, cls = ALPHABET[idx]
             if cls == "misaddressed" or name == "no-datas":
-                if any(x == STATP for x in inner) and not any(ALPHABET[i][0] == "statp" for i in seq):
+                if any(x == STATP for x in inner) and not n_statp_arrivals:
                     why = ("requeue", f"content of mis-addressed/malformed packet {name} was re-queued")
-        n_good = sum(1 for i in seq if ALPHABET[i][0] == "statp")
         if sum(1 for x in inner if x == STATP) != n_good:
-            why = why or ("requeue", f"{sum(1 for x in inner if x == STATP)} STATP contents queued for {n_good} correctly addressed STATP packets")
+            why = why or ("requeue", f"{sum(1 for x in inner if x == STATP)} STATP contents queued for {n_good} correctly addressed STATP packets"
+                                     f"{' taken by the packet consumer' if ndev >= 2 else ''}")
     if why is None:
-        n_good = sum(1 for i in seq if ALPHABET[i][0] == "statp")
         blk = spa.struct.status_block
-        exp = blk0 if not n_good else blk0[:P] + b"\xab\xcd" + blk0[P + 2:]
+        exp = blk0 if not n_applied else blk0[:P] + b"\xab\xcd" + blk0[P + 2:]
         if blk != exp:
             why = ("state", "client block changed by traffic that must have no effect"
-                   if not n_good else "client block is not the block with the one addressed update applied")
+                   if not n_applied else "client block is not the block with the one addressed update applied")
         evs = [e.name for e in rig.events[ev0:]]
-        exp_ev = sorted(["ERROR_RF_ERROR"] * sum(1 for i in seq if ALPHABET[i][0] == "rferr")
-                        + ["RUNNING_SPA_WATER_CARE_ERROR"] * sum(1 for i in seq if ALPHABET[i][0] == "wcerr"))
+        exp_ev = sorted(["ERROR_RF_ERROR"] * n_rf + ["RUNNING_SPA_WATER_CARE_ERROR"] * n_wc)
         if hdelay:
             # while the callback is suspended its consumer does not poll: a further RFERR/WCERR may be
             # discarded as unhandled (allowed); but never more events than arrivals, never zero for one
@@ -275,7 +294,7 @@ def _run(ch, seq, offs, waiter, window, hdelay=0.0, start=0.0):
                 why = ("events", f"events {evs} for arrivals {[NAMES[i] for i in seq]} (slow handler)")
         elif sorted(evs) != exp_ev:
             why = ("events", f"events {evs} for arrivals {[NAMES[i] for i in seq]}")
-        if not n_good and rig.observed:
+        if not n_applied and rig.observed:
             why = ("observers", f"observers fired {rig.observed[:2]} without an addressed update")
     if why is None and (lib.LOG.records or rig.loop.exceptions):
         why = ("engine", f"errors: {lib.LOG.records[:2]} {rig.loop.exceptions[:2]}")
@@ -365,14 +384,19 @@ def run(ctx):
     tb = 1 if ctx.quick else 2
     sel = [((0, 1), (0.0,), "ping"), ((4, 1, 5), (0.0, 0.05), "none"), ((1, 7, 1), (0.05, 0.0), "status"),
            ((2, 3, 4), (0.0, 0.0), "ping"), ((10, 4, 12), (0.0, 0.0), "none"), ((5, 5, 0), (0.1, 0.1), "ping")]
-    if not ctx.quick:
-        sel += [((a, b), (0.0,), "none") for a in range(n) for b in (1, 4)]
     te = 0
     for s, o, w in sel:
-        st = explore.explore(ctx, _job, (s, o, w, 0.049), bound=tb, label=f"timers{s}", max_execs=300000)
+        st = explore.explore(ctx, _job, (s, o, w, 0.049), bound=tb, label=f"timers{s}", max_execs=300000 if ctx.quick else 60000)
         te += st["executions"]
         states.update(st["obs"])
         explore.fold_stats(ctx, st, prefix="timers_")
+    if not ctx.quick:
+        # every pair (x, statp) and (x, unknown-verb) with one deviation
+        for s, o, w in [((a, b), (0.0,), "none") for a in range(n) for b in (1, 4)]:
+            st = explore.explore(ctx, _job, (s, o, w, 0.049), bound=1, label=f"timers{s}", max_execs=20000)
+            te += st["executions"]
+            states.update(st["obs"])
+            explore.fold_stats(ctx, st, prefix="timers1_")
     ctx.set("timer_deviation_executions", te)
     ctx.set("timer_deviation_bound", tb)
     ctx.log(f"timer-order deviations <= {tb}: {te} executions")
